@@ -109,7 +109,7 @@ func (g *c11Gen) action() {
 	x := g.names[g.pick("x", len(g.names))]
 	y := g.names[g.pick("y", len(g.names))]
 	lx := g.vars[x]
-	switch g.pick("action", 15) {
+	switch g.pick("action", 16) {
 	case 0: // fresh literal
 		l, txt := g.newList(g.pick("len", 6), true)
 		g.vars[x] = l
@@ -163,6 +163,19 @@ func (g *c11Gen) action() {
 		} else {
 			g.w("%s[%d] = %d;", x, i, v)
 		}
+	case 14: // unusual spellings of a valid index
+		if len(lx.elems) == 0 {
+			g.w("%s %s;", bn.KwPrint, x)
+			return
+		}
+		i := g.pick("index", len(lx.elems))
+		forms := []string{"(0 - 0) + %d", "(%d | 0)", "%d.0", "(%d * 1.0)", "(%d + 0.5 - 0.5)", "%d %% 1000", "(2 ** 53) - (2 ** 53) + %d", bn.BRound + "(%d.2)", "(-0) + %d"}
+		f := fmt.Sprintf(forms[g.pick("indexForm", len(forms))], i)
+		g.w("%s %s[%s];", bn.KwPrint, x, f)
+		v := g.u()
+		lx.elems[i] = gElem{n: v}
+		g.mutated(lx)
+		g.w("%s[%s] = %d;", x, f, v)
 	case 7: // লেন used as a number
 		switch g.pick("lenuse", 4) {
 		case 0:
@@ -256,7 +269,8 @@ func (g *c11Gen) action() {
 	}
 }
 
-var c11Faults = []string{"%s[\"1.5\"]", "%s[\"0.5\"] = 1", bn.BRemove + "(%s, \"0.9\")", "%s[\"-1\"]", "%s[\"99\"]", "%s[\"১.৫\"]", "%s[\"1e-1\"]", "%s[\"nan\"]", bn.BRemove + "(%s, \"-0.5\")", "%s[\"-0.5\"] = 1",
+var c11Faults = []string{"%s[(2 ** 1024)]", "%s[(2 ** 1024) - (2 ** 1024)]", "%s[2 ** 63]", "%s[9007199254740992]", "%s[0 - (2 ** 63)]", "%s[1 / 3]", bn.BRemove + "(%s, (2 ** 1024))", "%s[0.999999999999]", "%s[1 << 40]", "%s[~0]",
+	"%s[\"1.5\"]", "%s[\"0.5\"] = 1", bn.BRemove + "(%s, \"0.9\")", "%s[\"-1\"]", "%s[\"99\"]", "%s[\"১.৫\"]", "%s[\"1e-1\"]", "%s[\"nan\"]", bn.BRemove + "(%s, \"-0.5\")", "%s[\"-0.5\"] = 1",
 	"%s[0 - 1]", "%s[%s(%s)]", "%s[%s(%s) + 7]", "%s[0.5]", "%s[nil]", "%s[" + bn.KwTrue + "]", "%s[\"k\"]", "%s[[0]]",
 	"%s[0 - 1] = 1", "%s[%s(%s)] = 1", "%s[0.5] = 1", "%s[nil] = 1",
 	bn.BRemove + "(%s, 0 - 1)", bn.BRemove + "(%s, %s(%s))", bn.BRemove + "(%s, 0.5)", bn.BRemove + "(%s, nil)", bn.BRemove + "(%s, \"k\")",
